@@ -34,11 +34,11 @@ Qed.
 (* The reference sender: messages cut into arbitrary pieces (any sizes, empty pieces included), some of them aborted,
    numbered by any conforming numbering.  Everything within the negotiated limits is delivered, in order, unchanged. *)
 Theorem C12_ref_sender : forall mc ms msgs,
-  mc < 4294967296 -> ms < 4294967296 -> Forall (smsg_ok mc ms) msgs ->
+  Forall (smsg_ok mc ms) msgs ->
   chain (map ck_seq (ref_stream msgs)) -> nlen (ref_stream msgs) <= 4294965249 ->
   receive_all mc ms (ref_stream msgs) = map smsg_out msgs.
 Proof.
-  intros mc ms msgs Hmc Hms Hok Hc Hl.
+  intros mc ms msgs Hok Hc Hl.
   rewrite C12_conforming_numbering by assumption. apply spec_ref_stream; assumption.
 Qed.
 
